@@ -585,7 +585,7 @@ pub fn run(tier: Tier) -> CheckResult {
         {"TypeAt": {"site": "return", "ty": "HashMap<(String, Item), Result<Item, String>>"}},
         {"Message": {"text": "say \"hi\""}}
     ]));
-    res.coverage.set("rule", "name-like inputs (field keys and variant literals under every rename_all and a rename alphabet, command / parameter / event names incl. JS reserved words and raw identifiers, naming-case settings, validator messages, type-mapping targets, path-qualified types) each as its own project in both modes; type expressions (full product to depth 2, thorough adds depth-3 spines) at all five sites in both modes, batched, failing batches re-run case by case; oracle: every written .ts file is accepted by the strict TypeScript parser of Appendix A (illegal identifiers, unquoted non-identifier keys, unbalanced brackets, '::', 'r#' are syntax errors there); a case is non-trivial when the tool accepted the project and wrote files");
+    res.coverage.set("rule", "[round 7: every parameter name also as a channel parameter, beside an ordinary parameter and alone, under every naming-case setting] name-like inputs (field keys and variant literals under every rename_all and a rename alphabet, command / parameter / event names incl. JS reserved words and raw identifiers, naming-case settings, validator messages, type-mapping targets, path-qualified types) each as its own project in both modes; type expressions (full product to depth 2, thorough adds depth-3 spines) at all five sites in both modes, batched, failing batches re-run case by case; oracle: every written .ts file is accepted by the strict TypeScript parser of Appendix A (illegal identifiers, unquoted non-identifier keys, unbalanced brackets, '::', 'r#' are syntax errors there); a case is non-trivial when the tool accepted the project and wrote files");
     res.assumptions = vec!["the parser's grammar (DESIGN.md Appendix A) is the definition of 'parses as a TypeScript module'; output outside that grammar ends the check with exit 2".into()];
     res
 }
